@@ -1,6 +1,6 @@
-"""C18 — benchmark problems.  ZDT / DTLZ: compared with the independent reference implementations of the Lean
-model (Float instance; tolerance 1e-9 relative, the operation order of a reference written from the papers
-is not that of the library).  All 43 classes: arity / finiteness of what `evaluate` stores; published front
+"""C18 — benchmark problems.  ZDT1-6, DTLZ1-4/7, WFG1-9, UF1-10, CF1-10 (objectives and constraints): compared with
+the independent reference implementations of the Lean model (Float instance; tolerance 1e-9 relative, the
+operation order of a reference written from the papers is not that of the library).  All 43 classes: arity / finiteness of what `evaluate` stores; published front
 inequalities; Pareto samplers of DTLZ / WFG."""
 import itertools
 import math
@@ -136,6 +136,14 @@ def run(ctx, drv):
                     ask(f"zdt5 {len(x)} " + " ".join(wbits(v) for v in x),
                         lambda g, objs=objs, inp=inp: None if (lambda t: close(objs[0], float(t[1])) and close(objs[1], float(t[2]) / float(t[3])))(g.split())
                         else ctx.disagree("ZDT5 reference implementation", inp, objs, g))
+                elif name.startswith("UF") and int(name[2:]) <= 10:
+                    ask(f"uf {name[2:]} {wlist(x, wf)}", lambda g, objs=objs, inp=inp, name=name: cmp_ref(ctx, g, objs, inp, name))
+                elif name == "UF13":          # CEC 2009: WFG1 with 5 objectives, k = 8, l = 22
+                    ask(f"wfg 1 8 5 {wlist(x, wf)}", lambda g, objs=objs, inp=inp, name=name: cmp_ref(ctx, g, objs, inp, name))
+                elif name.startswith("CF"):
+                    ask(f"cf {name[2:]} {wlist(x, wf)}", lambda g, vals=objs + cons, inp=inp, name=name: cmp_ref(ctx, g, vals, inp, name))
+                elif name.startswith("WFG"):
+                    ask(f"wfg {name[3]} {p.k} {p.nobjs} {wlist(x, wf)}", lambda g, objs=objs, inp=inp, name=name: cmp_ref(ctx, g, objs, inp, name))
                 elif name.startswith("DTLZ"):
                     ask(f"dtlz {name[4]} {p.nobjs} {wlist(x, wf)}", lambda g, objs=objs, inp=inp, name=name: cmp_ref(ctx, g, objs, inp, name))
                 interior = not all(v in (t.min_value, t.max_value) for v, t in zip(x, p.types) if isinstance(t, platypus.Real)) if not isinstance(x[0], list) else True
